@@ -218,3 +218,18 @@ def build_slot(ctx, f, raw):
     from syne_tune.optimizer.schedulers.synchronous.hyperband_bracket import SlotInRung
 
     return SlotInRung(**f)
+
+
+@builder("trialcfg")
+def build_trialcfg(ctx, f, raw):
+    import datetime
+    from syne_tune.backend.trial_status import Trial
+
+    return Trial(trial_id=f["trial_id"], config=f["config"], creation_time=datetime.datetime(2020, 1, 1))
+
+
+@builder("status_best")
+def build_status_best(ctx, f, raw):
+    o = types.SimpleNamespace(**f)
+    o.__class__ = type("StatusStub", (types.SimpleNamespace,), {"__str__": lambda self: "<status>"})
+    return o
